@@ -2,6 +2,7 @@
 From Coq Require Import List NArith ZArith Bool Arith String.
 Import ListNotations.
 Require Import Scan Parse Construct StandaloneLemmas.
+Require Emit EmitGrows EmitMarkers.
 Require Emit EmitGrows EmitLemmas EmitPrefix.
 Require ParseL ParserIsolation.
 
@@ -41,6 +42,25 @@ Theorem C12_directives_do_not_leak : forall fuel acc ts p stk mks h v h' v', p =
   ParseL.parse_loop fuel acc {| ParseL.toks := ts; ParseL.pstate_ := Some p; ParseL.pstates := stk; ParseL.pmarks := mks; ParseL.handles := h'; ParseL.version_ := v' |}.
 Proof. exact ParserIsolation.directives_do_not_leak. Qed.
 Eval vm_compute in "ASSUME:C12_directives_do_not_leak"%string. Print Assumptions C12_directives_do_not_leak.
+
+(* KIND C12_explicit_documents_get_their_marker : U *)
+(* the emitter, EVERY state: a document start that is explicit, or not the first of the stream, or carries a %YAML or %TAG directive, writes the chunk
+   `---` (right after an indentation step, as a chunk of its own), whatever else it writes.  Proofs/EmitMarkers.v *)
+Theorem C12_explicit_documents_get_their_marker : forall first explicit version tags s,
+  Emit.cur_ev s = Some (Emit.EDocStart explicit version tags) ->
+  (explicit = true \/ first = false \/ version <> None \/ tags <> []) ->
+  match Emit.expect_document_start first s with
+  | Emit.Ok (_, s') => exists post pre, Emit.out s' = (post ++ [45; 45; 45]%N :: pre)%list /\ EmitGrows.extends (Emit.out s) pre
+  | _ => True end.
+Proof. exact EmitMarkers.explicit_documents_get_their_marker. Qed.
+Eval vm_compute in "ASSUME:C12_explicit_documents_get_their_marker"%string. Print Assumptions C12_explicit_documents_get_their_marker.
+(* KIND C12_explicit_document_end_gets_its_marker : U *)
+Theorem C12_explicit_document_end_gets_its_marker : forall s, Emit.state s = Emit.XDocEnd -> Emit.cur_ev s = Some (Emit.EDocEnd true) ->
+  match Emit.step s with
+  | Emit.Ok (_, s') => exists post pre, Emit.out s' = (post ++ [46; 46; 46]%N :: pre)%list /\ EmitGrows.extends (Emit.out s) pre
+  | _ => True end.
+Proof. exact EmitMarkers.explicit_document_end_gets_its_marker. Qed.
+Eval vm_compute in "ASSUME:C12_explicit_document_end_gets_its_marker"%string. Print Assumptions C12_explicit_document_end_gets_its_marker.
 
 (* PARTIAL: doc_markers / no_marker_inside / doc_text_prefix_stable on the emitter model and parser_doc_count are not proved; decided by the exact-text
    emitter correspondence, the parse correspondence and the direct dump_all/serialize_all/emit -> load_all/compose_all/parse run (n in = n out, each
